@@ -52,4 +52,35 @@ MUT = {
             self._loop.call_later(self.retention_timeout, self._retention_cache.pop, key, None)
         await self._queue.put((key, arg, fut))
 """, 'C11'),
+ 'c04_by_position': ('aiuti/asyncio.py', """                async for key, result in self.func(args):
+                    fut = futs.pop(key)""", """                _order = list(futs)
+                async for key, result in self.func(args):
+                    key = _order.pop(0)
+                    fut = futs.pop(key)""", 'C04'),
+ 'c04_exc_as_value': ('aiuti/asyncio.py', "                        if isinstance(result, Exception):\n                            fut.set_exception(result)", "                        if isinstance(result, Exception) and not isinstance(result, ValueError):\n                            fut.set_exception(result)", 'C04'),
+ 'c04_no_fanout': ('aiuti/asyncio.py', """            for fut in futs.values():
+                fut.set_exception(e)
+            return""", """            return""", 'C04'),
+ 'c04_no_missing': ('aiuti/asyncio.py', """            for key, fut in futs.items():
+                fut.set_exception(ValueError(f"Missing result for {key!r}"))""", """            pass""", 'C04'),
+ 'c04_unfix_stopiter': ('aiuti/asyncio.py', """                        futs[key] = fut
+                        raise""", """                        raise""", 'C04'),
+ 'c09_no_shield_join': ('aiuti/asyncio.py', """        else:
+            return await aio.shield(fut)
+""", """        else:
+            return await fut
+""", 'C09'),
+ 'c09_no_shield_orig': ('aiuti/asyncio.py', """        await self._queue.put((key, arg, fut))
+
+        return await aio.shield(fut)""", """        await self._queue.put((key, arg, fut))
+
+        return await fut""", 'C09'),
+ 'c09_evict_on_leave': ('aiuti/asyncio.py', """        await self._queue.put((key, arg, fut))
+
+        return await aio.shield(fut)""", """        await self._queue.put((key, arg, fut))
+
+        try:
+            return await aio.shield(fut)
+        finally:
+            self._retention_cache.pop(key, None)""", 'C09'),
 }
